@@ -151,6 +151,7 @@ static inline void myth_queue_clear(myth_thread_queue_t q)
 static inline void __attribute__((always_inline)) myth_queue_push(myth_thread_queue_t q, myth_thread_t th)
 {
   myth_queue_enter_operation(q);
+  MYTH_VERIF_QOP(q, MVQ_PUSH);
 #if USE_LOCK || USE_LOCK_PUSH
   myth_spin_lock_body(&q->m_lock);
 #endif
@@ -199,6 +200,7 @@ static inline void __attribute__((always_inline)) myth_queue_push(myth_thread_qu
 static inline myth_thread_t __attribute__((always_inline)) myth_queue_pop(myth_thread_queue_t q)
 {
   myth_queue_enter_operation(q);
+  MYTH_VERIF_QOP(q, MVQ_POP);
 
 #if QUICK_CHECK_ON_POP
   if (q->top <= q->base) {
